@@ -108,8 +108,8 @@ already returned `Ok` while the send of `m₂` has not performed its first step 
 allocated, or its frame is still parked at `send.status`), then in every continuation in which `m₂`
 gets enqueued, `m₁` is before `m₂` in the channel. (Two sends of one sender are the special case.) -/
 theorem real_time_order (progs : List (List Op)) (sched₁ sched₂ : List Tid) (m₁ m₂ : Nat)
-    (late₁ : Bool)
-    (hdone : ⟨.send, m₁, .ok, late₁⟩ ∈ (run (init progs) sched₁).sh.rets)
+    (late₁ : Bool) (seen₁ : List Nat)
+    (hdone : ⟨.send, m₁, .ok, late₁, seen₁⟩ ∈ (run (init progs) sched₁).sh.rets)
     (hnot : (run (init progs) sched₁).sh.nextId ≤ m₂ ∨
       ∃ stack ∈ (run (init progs) sched₁).threads, ∃ f ∈ stack, f.pc = .sStatus ∧ f.id = m₂)
     (henq : Item.msg m₂ ∈ (run (run (init progs) sched₁) sched₂).sh.enq) :
@@ -142,8 +142,8 @@ theorem real_time_order (progs : List (List Op)) (sched₁ sched₂ : List Tid) 
 (`handled` is a prefix of the enqueue order, `handled_in_enqueue_order`). Stated directly: if both
 have been handled, `m₁` comes first. -/
 theorem real_time_order_handled (progs : List (List Op)) (sched₁ sched₂ : List Tid) (m₁ m₂ : Nat)
-    (late₁ : Bool)
-    (hdone : ⟨.send, m₁, .ok, late₁⟩ ∈ (run (init progs) sched₁).sh.rets)
+    (late₁ : Bool) (seen₁ : List Nat)
+    (hdone : ⟨.send, m₁, .ok, late₁, seen₁⟩ ∈ (run (init progs) sched₁).sh.rets)
     (hnot : (run (init progs) sched₁).sh.nextId ≤ m₂ ∨
       ∃ stack ∈ (run (init progs) sched₁).threads, ∃ f ∈ stack, f.pc = .sStatus ∧ f.id = m₂)
     (h2 : m₂ ∈ (run (run (init progs) sched₁) sched₂).sh.handled) :
@@ -159,7 +159,7 @@ theorem real_time_order_handled (progs : List (List Op)) (sched₁ sched₂ : Li
     rw [count_msgIds] at this
     rw [q.conserve]
     exact List.mem_append_left _ (List.mem_append_left _ (List.count_pos_iff.mp this))
-  obtain ⟨a, b, c, habc⟩ := real_time_order progs sched₁ sched₂ m₁ m₂ late₁ hdone hnot hmem
+  obtain ⟨a, b, c, habc⟩ := real_time_order progs sched₁ sched₂ m₁ m₂ late₁ seen₁ hdone hnot hmem
   generalize run (run (init progs) sched₁) sched₂ = g at *
   -- `deqd` is a prefix of `enq` containing `m₂`, which occurs once in `enq`, after `m₁`
   have hd : Item.msg m₂ ∈ g.sh.deqd := by
@@ -200,9 +200,9 @@ theorem nothing_handled_after_close (g : G) (sched : List Tid) (h : g.sh.rxOpen 
 /-- (d) A wrong-type send is rejected with `InvalidActorType` without disturbing the actor: it
 changes no component of the shared state (only the ghost log of returned ops grows). -/
 theorem wrong_type_send_changes_nothing (s : Shared) (id : Nat) (late bf : Bool) (ops : List Op)
-    (rest : List Frame) :
-    stepThread s (⟨.bad, id, late, ops, bf⟩ :: rest) =
-      some ({ s with rets := s.rets ++ [⟨.bad, id, .invalidType, late⟩] }, rest) := by
+    (sk : List Nat) (rest : List Frame) :
+    stepThread s (⟨.bad, id, late, ops, bf, sk⟩ :: rest) =
+      some ({ s with rets := s.rets ++ [⟨.bad, id, .invalidType, late, sk⟩] }, rest) := by
   simp only [stepThread, finish, kindOf]
 
 /-- The status word never decreases (`fetch_max`, and `drain`'s `fetch_update`). -/
@@ -230,6 +230,11 @@ theorem src_send_steps :
 theorem src_port_drop : "message_rx" ∈ Extracted.portSetDropClose ∧ "message_rx" ∈ Extracted.portSetDropFlush := by
   decide
 
+/-- the ghost behind the oracle's `order` clause: the second send of thread 0 starts after the
+first has returned `Ok`, and records it -/
+example : (run (init [[.send [] false, .send [] false]]) (List.replicate 16 (.t 0))).sh.rets
+    = [⟨.send, 0, .ok, false, []⟩, ⟨.send, 1, .ok, false, [0]⟩] := by decide
+
 /-! ### Non-vacuity -/
 
 /-- two senders racing: thread 1's message is enqueued first although thread 0 was admitted
@@ -245,10 +250,10 @@ def exampleSched : List Tid :=
 example : (run (init exampleProgs) exampleSched).sh.enq = [.msg 1, .msg 0] := by decide
 example : (run (init exampleProgs) exampleSched).sh.handled = [1, 0] := by decide
 example : (run (init exampleProgs) exampleSched).sh.rets =
-    [⟨.send, 1, .ok, false⟩, ⟨.send, 0, .ok, false⟩, ⟨.bad, 0, .invalidType, false⟩] := by decide
+    [⟨.send, 1, .ok, false, []⟩, ⟨.send, 0, .ok, false, []⟩, ⟨.bad, 0, .invalidType, false, []⟩] := by decide
 /-- hypotheses of `real_time_order` are satisfiable: after thread 1's complete send, a second
 program's send has not started. -/
-example : ⟨.send, 0, .ok, false⟩ ∈ (run (init [[.send [] false], [.send [] false]])
+example : ⟨.send, 0, .ok, false, []⟩ ∈ (run (init [[.send [] false], [.send [] false]])
       (List.replicate 8 (.t 0))).sh.rets
     ∧ (run (init [[.send [] false], [.send [] false]]) (List.replicate 8 (.t 0))).sh.nextId ≤ 1
     ∧ Item.msg 1 ∈ (run (run (init [[.send [] false], [.send [] false]]) (List.replicate 8 (.t 0)))
@@ -256,7 +261,7 @@ example : ⟨.send, 0, .ok, false⟩ ∈ (run (init [[.send [] false], [.send []
 /-- a send racing with the receiver's exit gets its message back -/
 example : (run (init [[.send [] false]])
     [.t 0, .t 0, .t 0, .t 0, .t 0, .t 0, .rxStop, .rxClose, .t 0, .t 0]).sh.rets
-      = [⟨.send, 0, .sendErr, false⟩] := by decide
+      = [⟨.send, 0, .sendErr, false, []⟩] := by decide
 
 end C02
 
